@@ -79,7 +79,92 @@ def make_oracle(task):
     return Oracle(task)
 
 
+# ------------------------------------------------------------------------------------------------
+# two classes of the SAME NAME (e.g. defined in two modules) with different element / key types: what the library worked
+# out for one of them must not be used for the other
+# ------------------------------------------------------------------------------------------------
+TWIN_VARIANTS = {
+    # attr source, conforming call, non-conforming call (must raise TypeError / ValueError and store nothing)
+    "str_keys": ("limits: Dict[str, int] = {}", ("with_limit", ("cpu", 4)), ("with_limit", (2, 4)), "limits"),
+    "int_keys": ("limits: Dict[int, int] = {}", ("with_limit", (2, 4)), ("with_limit", ("cpu", 4)), "limits"),
+    "str_items": ("names: List[str] = []", ("with_name", ("a",)), ("with_name", (1,)), "names"),
+    "int_items": ("names: List[int] = []", ("with_name", (1,)), ("with_name", ("a",)), "names"),
+    "str_set": ("tags: Set[str] = set()", ("with_tag", ("a",)), ("with_tag", (1,)), "tags"),
+    "int_set": ("tags: Set[int] = set()", ("with_tag", (1,)), ("with_tag", ("a",)), "tags"),
+}
+TWIN_PAIRS = [("str_keys", "int_keys"), ("int_keys", "str_keys"), ("str_items", "int_items"), ("int_items", "str_items"),
+              ("str_set", "int_set"), ("int_set", "str_set")]
+
+
+def same_name_case(first, second, first_uses):
+    def make(variant):
+        ns = {"__name__": "verif_c03_twin"}
+        exec(compile(G.PRELUDE, "<c03-prelude>", "exec", dont_inherit=True), ns)
+        exec(compile(f"@spec_class\nclass Config:\n    {TWIN_VARIANTS[variant][0]}\n", "<c03-twin>", "exec", dont_inherit=True), ns)
+        return ns["Config"]
+
+    probs = []
+    A, B = make(first), make(second)
+    for u in first_uses:
+        m, args = TWIN_VARIANTS[first][1] if u == "good" else TWIN_VARIANTS[first][2]
+        try:
+            getattr(A(), m)(*args, _inplace=(u == "good_inplace"))
+        except Exception:
+            pass
+    for inplace in (False, True):
+        attr = TWIN_VARIANTS[second][3]
+        m, args = TWIN_VARIANTS[second][1]
+        try:
+            r = getattr(B(), m)(*args, _inplace=inplace)
+            if len(getattr(r, attr)) != 1:
+                probs.append(f"conforming {m}{args} on the second class stored {getattr(r, attr)!r}")
+        except Exception as e:
+            probs.append(f"conforming {m}{args} on the second class raised {type(e).__name__}")
+        m, args = TWIN_VARIANTS[second][2]
+        b = B()
+        try:
+            r = getattr(b, m)(*args, _inplace=inplace)
+            probs.append(f"non-conforming {m}{args} on the second class was stored: {getattr(r, attr)!r}")
+        except (TypeError, ValueError):
+            if len(getattr(b, attr)):
+                probs.append(f"refused {m}{args} left {getattr(b, attr)!r} behind")
+        except Exception as e:
+            probs.append(f"non-conforming {m}{args} raised {type(e).__name__}")
+    return probs
+
+
+def same_name_worker(task):
+    from mc.common import Counter, violation
+
+    C = Counter()
+    for first, second in TWIN_PAIRS:
+        for uses in ((), ("good",), ("bad",), ("good", "bad"), ("good_inplace",)):
+            probs = same_name_case(first, second, uses)
+            C.inc("states")
+            C.inc("transitions", len(uses) + 4)
+            C.inc("evaluations")
+            case = {"part": "same_name", "first": first, "second": second, "uses": list(uses)}
+            if probs:
+                C.viol(violation(PROP, {"part": "same_name", "kind": "type_of_a_same_named_class_applied", "first": first, "second": second},
+                                 {"problems": probs[:3]}, case))
+            else:
+                C.inc("traces_validated_against_impl")
+                C.nontrivial(("same_name", first, second, uses))
+    C.sample({"part": "same_name", "pairs": TWIN_PAIRS})
+    return C.rec
+
+
+def dispatch(task):
+    return same_name_worker(task) if task.get("part") == "same_name" else explore.explore_class(task)
+
+
 def run_case(case):
+    if case.get("part") == "same_name":
+        from mc.common import violation
+
+        probs = same_name_case(case["first"], case["second"], tuple(case["uses"]))
+        return [violation(PROP, {"part": "same_name", "kind": "type_of_a_same_named_class_applied", "first": case["first"], "second": case["second"]},
+                          {"problems": probs[:3]}, case)] if probs else []
     return explore.replay_case(case, "props.c03")
 
 
@@ -87,7 +172,8 @@ def main(run):
     from props.c01 import tasks_for
 
     tasks = tasks_for(run, "props.c03", PROP)
-    for rec in pmap(explore.explore_class, tasks):
+    tasks.append({"part": "same_name"})
+    for rec in pmap(dispatch, tasks):
         run.merge(rec)
     run.add(rule=(
         "BFS over histories of each generated class with the widest alphabet incl. non-conforming values aimed at every "
